@@ -190,6 +190,8 @@ def run(db: DB, rep: Report) -> None:
               "the loop arm of __trans_nodes passes different rank expressions to make_iter_expr and "
               "make_payload")
 
+    check_pos_paths(db, rep, "D3", hm)
+
     # ---- D6: the interval-driven condition is an unconditional disjunct of the predicate
     rep.rule("D6", "the enumerate predicate holds whenever the interval code needs the position variable", 1)
     check_need_enumerate(db, rep, "D6")
@@ -413,6 +415,45 @@ def run(db: DB, rep: Report) -> None:
               "createCanvas receives one argument per element of self.tensors (no filter)",
               "Canvas.create_canvas no longer passes exactly the tensors of self.tensors to createCanvas; "
               "the activity tuples would not line up with the canvas' tensors")
+
+
+def check_pos_paths(db: DB, rep: Report, rid: str, hm) -> None:
+    """Every normally returning path of the function that builds the loop
+    payload (resp. the iteration expression) evaluates the predicate that
+    decides about the *_pos variable (resp. the enumerate() wrapper): a path
+    that returns without asking emits a loop whose target and iterator
+    disagree, or leaves *_pos unbound."""
+    E = db.cls("teaal.trans.equation.Equation")
+    sites = [("*_pos payload", r) for r in hm.names.values()
+             if r["role"] == "binder" and r["cls"] == "PVar" and any(key_of(t) == ("_pos",) for t in r["tmpls"])]
+    sites += [("enumerate() wrapper", r) for r in hm.names.values()
+              if r["role"] == "callee" and r["func"] is not None and r["func"].cls is E and
+              any(show(t) == "enumerate" for t in r["tmpls"])]
+    for what, rec in sites:
+        f = rec["func"]
+        calls = []
+        for t, pol in paths.guards(rec["node"], stop=f.node):
+            for a, p in paths.conjuncts(t, pol):
+                if isinstance(a, ast.Name):
+                    v = paths.reaching_def(a.id, a, f.node)
+                    if v is not None:
+                        a = v
+                if isinstance(a, ast.Call) and isinstance(a.func, ast.Attribute) and p:
+                    calls.append(a)
+        if not calls:
+            rep.check(rid, False, db.loc(rec["node"]), f.short, "paths:" + what, "",
+                      "the %s in %s is not guarded by a predicate call" % (what, f.short), decided=False)
+            continue
+        pc = calls[-1]
+        outs = paths.path_counts(f.node.body, paths.make_pred(lambda n: n is pc))
+        bad = sorted((c, k) for c, k in outs if k in (paths.RET, paths.FALL) and c < 1)
+        rep.check(rid, not bad, db.loc(rec["node"]), f.short, "paths:" + what,
+                  "every returning path of %s evaluates %s before deciding on the %s" %
+                  (f.short, norm(pc)[:40], what),
+                  "%s has a returning path that never evaluates %s: the %s is left out on that path "
+                  "whatever the predicate says, while its counterpart still follows the predicate "
+                  "(the loop target and the iterator get different arity, or *_pos is read unbound)" %
+                  (f.short, norm(pc)[:40], what))
 
 
 def check_need_enumerate(db: DB, rep: Report, rid: str) -> None:
